@@ -190,15 +190,15 @@ class Ctx:
 
 
 def load_known(prop):
+    """known_findings.txt:  finding: property=<id> sig=<regex> :: <what>   |   fixed: property=<id> <commit> <what>"""
     out = []
-    p = os.path.join(VERIF, "known_findings.jsonl")
+    p = os.path.join(VERIF, "known_findings.txt")
     if os.path.exists(p):
         for l in open(p):
             l = l.strip()
-            if l and not l.startswith("#"):
-                k = json.loads(l)
-                if k.get("property") == prop:
-                    out.append(k)
+            m = re.match(r"finding:\s+property=(\S+)\s+sig=(\S+)\s+::\s+(.*)", l)
+            if m and m.group(1) == prop:
+                out.append(dict(kind="finding", property=prop, sig=m.group(2), what=m.group(3)))
     return out
 
 
